@@ -4,6 +4,11 @@ From Coq Require Import List Arith Bool.
 From IPC Require Import RSet.
 Import ListNotations.
 
+Section WithTorn.
+Variable tornp : nat -> bool.
+Notation step := (RSet.step tornp).
+Notation run := (RSet.run tornp).
+
 Fixpoint drain (fuel : nat) (s : st) : st :=
   match fuel with O => s | S f => match step s LRecv with Some s' => drain f s' | None => s end end.
 
@@ -19,6 +24,8 @@ Definition select_once (s : st) : option st :=
 Fixpoint selects (n : nat) (s : st) : option st :=
   match n with O => Some s | S k => match select_once s with Some s' => selects k s' | None => None end end.
 
+End WithTorn.
+
 Definition ev_eqb (a b : event) : bool :=
   match a, b with
   | EvMsg m x, EvMsg m' x' => Nat.eqb m m' && Nat.eqb x x'
@@ -29,12 +36,15 @@ Fixpoint leqb {A} (e : A -> A -> bool) (l1 l2 : list A) : bool :=
   match l1, l2 with [], [] => true | x :: r, y :: s => e x y && leqb e r s | _, _ => false end.
 
 (* pre: creation, sends, hang-ups and adds in the order the harness performed them; nsel: number of select() calls observed *)
-Definition check_rset (pre : list label) (nsel : nat) (obs : list event) : bool :=
-  match run init pre with
+Definition check_rset_torn (torn : list nat) (pre : list label) (nsel : nat) (obs : list event) : bool :=
+  let tornp := fun x => existsb (Nat.eqb x) torn in
+  match run tornp init pre with
   | Some s0 =>
-      match selects nsel s0 with
+      match selects tornp nsel s0 with
       | Some s => leqb ev_eqb (log s) obs && (match ready s with [] => true | _ => false end)
       | None => false
       end
   | None => false
   end.
+
+Definition check_rset := check_rset_torn [].
